@@ -268,18 +268,42 @@ def creators_refuse_existing(prog, chk, rid):
     es, reach = eff.transitive([root])
     openers = {}
     # a function that demands the file it opens to exist is a loader (the class-hierarchy call graph reaches the
-    # loading constructor of engine_storage from create_database); creators are the openers that do not
+    # loading constructor of engine_storage from create_database); creators are the openers that do not.
+    # A helper that is handed the complete path of the file it opens (`open_pair(m_db_path, p_db_path)`, shared
+    # by the loader and the creator) decides nothing about the directory: the opener is then each caller that
+    # composes the path, judged with the argument in place of the parameter.
+    callers = {}
+    for k_, (g_, _, _) in reach.items():
+        if g_.body is None or g_.is_pattern:
+            continue
+        for ed in cg.edges(g_):
+            if ed.node.get('kind') not in ('CallExpr', 'CXXMemberCallExpr'):
+                continue
+            for t in ed.targets:
+                callers.setdefault(t.key, []).append((g_, ed.node))
+
+    def place(f, node, sp, depth=0):
+        if sp == (':memory:',):
+            return
+        if sp is not None and sp in _demanded_paths(prog, f, node):
+            return
+        if sp is not None and len(sp) == 1 and isinstance(sp[0], tuple) and depth < 4 and callers.get(f.key):
+            names = [p_.get('name') for p_ in f.params]
+            if sp[0][1] in names:
+                i = names.index(sp[0][1])
+                for g, c in callers[f.key]:
+                    args = children(c)[1:]
+                    place(g, c, c16._sym_path(prog, g, args[i]) if i < len(args) else None, depth + 1)
+                return
+        openers.setdefault(f.key, f)
     for e in es:
         if e.cls == 'attach' and e.site is not None and e.site.binds:
-            sp = c16._sym_path(prog, e.func, e.site.binds[0])
-            if sp is not None and sp in c16._existence_guards(prog, e.func, e.site.node):
-                continue
-            openers.setdefault(e.func.key, e.func)
+            place(e.func, e.site.node, c16._sym_path(prog, e.func, e.site.binds[0]))
     for f, node, arg in c16._open_sites(prog, cg, reach):
         sp = c16._sym_path(prog, f, arg)
-        if sp == (':memory:',) or (sp is not None and sp in c16._existence_guards(prog, f, node)):
+        if sp == (':memory:',):
             continue
-        openers.setdefault(f.key, f)
+        place(f, node, sp)
     if not openers:
         raise AnalysisBroken('X5: create_database reaches no function that opens a database file')
     for key, f in sorted(openers.items(), key=lambda kv: kv[1].qualname):
@@ -327,6 +351,13 @@ def creators_refuse_existing(prog, chk, rid):
                         sp = c16._sym_path(prog, g, children(x)[1])
                         if sp is not None:
                             refused.add(tuple(y if isinstance(y, str) else ('param', 'directory') for y in sp))
+                    elif x.get('kind') == 'CallExpr' and id(x) not in negated:
+                        # `std::any_of(paths.begin(), paths.end(), [](const std::string& p) { return exists(p); })`
+                        # over a constant list of paths is the || chain of the tests of its elements
+                        for el in _any_of_existence(prog, g, x, named):
+                            sp = c16._sym_path(prog, g, el)
+                            if sp is not None:
+                                refused.add(tuple(y if isinstance(y, str) else ('param', 'directory') for y in sp))
         short = f.qualname.replace('djinterop::engine::', '')
         missing = sorted(probed - refused, key=str)
         inst = '%s refuses when %s exist(s)' % (short, ', '.join(c16._show_path(x) for x in sorted(probed & refused, key=str)) or 'nothing')
@@ -340,6 +371,88 @@ def creators_refuse_existing(prog, chk, rid):
                           'load_database rejects a directory with both layouts - the library just created is not '
                           'recognised on load' % (short, ' / '.join(c16._show_path(x) for x in missing),
                                                   ', '.join(c16._show_path(x) for x in sorted(refused, key=str)) or 'nothing'))
+
+
+def _any_of_existence(prog, g, call, named):
+    """Elements of the constant container an `any_of(first, last, pred)` call ranges over, when pred is a lambda
+    that returns the existence test of its own parameter; otherwise nothing."""
+    from . import c16
+    if (strip(children(call)[0]).get('referencedDecl') or {}).get('name') != 'any_of':
+        return []
+    args = children(call)[1:]
+    if len(args) != 3:
+        return []
+    conts = []
+    for a in args[:2]:
+        ids = [(y.get('referencedDecl') or {}).get('id') for y in walk(a) if y.get('kind') == 'DeclRefExpr'
+               and (y.get('referencedDecl') or {}).get('kind') == 'VarDecl']
+        conts.append(ids[0] if len(ids) == 1 else None)
+    if conts[0] is None or conts[0] != conts[1] or conts[0] not in named:
+        return []
+    if not any(y.get('kind') == 'MemberExpr' and y.get('name') in ('begin', 'cbegin') for y in walk(args[0])) and \
+            not any((y.get('referencedDecl') or {}).get('name') in ('begin', 'cbegin') for y in walk(args[0])):
+        return []
+    lam = [y for y in walk(args[2]) if y.get('kind') == 'LambdaExpr']
+    if len(lam) != 1:
+        return []
+    meth = [m for r in children(lam[0]) if r.get('kind') == 'CXXRecordDecl'
+            for m in children(r) if m.get('kind') == 'CXXMethodDecl' and m.get('name') == 'operator()']
+    body = [y for y in children(lam[0]) if y.get('kind') == 'CompoundStmt']
+    if not meth or not body:
+        return []
+    params = [p_.get('id') for p_ in children(meth[0]) if p_.get('kind') == 'ParmVarDecl']
+    st = children(body[-1])
+    if len(params) != 1 or len(st) != 1 or st[0].get('kind') != 'ReturnStmt' or not children(st[0]):
+        return []
+    t = strip(children(st[0])[0], explicit=True)
+    if t.get('kind') != 'CallExpr' or len(children(t)) != 2 or not c16._is_existence_test(prog, g, t):
+        return []
+    if (strip(children(t)[1], explicit=True).get('referencedDecl') or {}).get('id') != params[0]:
+        return []
+    for y in walk(named[conts[0]]):
+        if y.get('kind') == 'InitListExpr' and children(y) and children(y)[0].get('kind') != 'InitListExpr':
+            return children(y)
+    return []
+
+
+def _demanded_paths(prog, func, before_node):
+    """Symbolic paths the function demands to exist before before_node: `if (... !path_exists(P) ...) throw`
+    (c16), also when the condition is held in a named flag (`const bool both = exists(a) && exists(b);
+    if (!both) throw`: every conjunct under the negation is demanded)."""
+    from . import c16
+    out = list(c16._existence_guards(prog, func, before_node))
+    loc = program.single_assignment_locals(func.node)
+    for st in children(func.body):
+        if st.get('loc') and before_node.get('loc') and st['loc'][1] >= before_node['loc'][1]:
+            break
+        if st.get('kind') != 'IfStmt':
+            continue
+        c = children(st)
+        if not any(x.get('kind') == 'CXXThrowExpr' for x in walk(c[1])):
+            continue
+
+        def conj(n, neg, depth=0):
+            """existence tests that must all hold for the condition to be false"""
+            n = strip(n, explicit=True)
+            k = n.get('kind')
+            if k == 'UnaryOperator' and n.get('opcode') == '!':
+                return conj(children(n)[0], not neg, depth)
+            if k == 'BinaryOperator' and n.get('opcode') in ('&&', '||'):
+                # the condition throws when true; !(a && b) and (!a || !b) both demand a and b
+                if (n['opcode'] == '&&') == neg:
+                    return conj(children(n)[0], neg, depth) + conj(children(n)[1], neg, depth)
+                return []
+            if k == 'DeclRefExpr' and depth < 3:
+                d = loc.get((n.get('referencedDecl') or {}).get('id'))
+                if d is not None and 'bool' in (n.get('type') or ''):
+                    return conj(d, neg, depth + 1)
+                return []
+            if k == 'CallExpr' and neg and len(children(n)) > 1 and c16._is_existence_test(prog, func, n):
+                sp = c16._sym_path(prog, func, children(n)[1])
+                return [sp] if sp is not None else []
+            return []
+        out.extend(conj(c[0], False))
+    return out
 
 
 def _loc_of(cats, alias, key, short):
@@ -396,16 +509,30 @@ def _check_info_insert(prog, chk, X2, cls, short, ver, e):
             # that entered the helper, frame by frame
             cur_func = e.func
             frames = list(getattr(e, 'frames', ()) or ())
-            while ref.get('kind') == 'ParmVarDecl' and frames:
-                idx = [i for i, p_ in enumerate(cur_func.params) if p_.get('id') == ref.get('id')]
-                caller, callnode = frames.pop()
-                args = children(callnode)[1:]
-                if not idx or idx[0] >= len(args):
-                    break
-                base = strip(args[idx[0]], explicit=True)
-                ref = base.get('referencedDecl') or {}
-                cur_func = caller
-                tu = caller.tu
+            hops = 0
+            while hops < 12:
+                hops += 1
+                if ref.get('kind') == 'ParmVarDecl' and frames:
+                    idx = [i for i, p_ in enumerate(cur_func.params) if p_.get('id') == ref.get('id')]
+                    caller, callnode = frames.pop()
+                    args = children(callnode)[1:]
+                    if not idx or idx[0] >= len(args):
+                        break
+                    base = strip(args[idx[0]], explicit=True)
+                    ref = base.get('referencedDecl') or {}
+                    cur_func = caller
+                    tu = caller.tu
+                    continue
+                # a local of the function that is initialised once and never assigned (a reference alias or a
+                # const copy: `const semantic_version& version = schema_version;`) stands for its initialiser
+                if ref.get('kind') == 'VarDecl' and ref.get('id') in program.single_assignment_locals(cur_func.node):
+                    init = program.single_assignment_locals(cur_func.node)[ref.get('id')]
+                    base = strip(init, explicit=True)
+                    while base.get('kind') in ('CXXConstructExpr', 'InitListExpr') and len(children(base)) == 1:
+                        base = strip(children(base)[0], explicit=True)
+                    ref = base.get('referencedDecl') or {}
+                    continue
+                break
             qn = tu.qn.get(ref.get('id'))
             if qn == cls + '::schema_version':
                 okb = True
